@@ -47,11 +47,11 @@ fn huge_chunk_does_not_let_a_second_caller_in() {
         }
         // X reserves position usize::MAX (the counter wraps to 0), then Y reserves position 0 - A's position
         let x = s.spawn(move || {
-            let _ = iter.next();
+            let _ = iter.next_chunk(1).map(|c| c.values.count());
         });
         std::thread::sleep(std::time::Duration::from_millis(200));
         let y = s.spawn(move || {
-            let _ = iter.next();
+            let _ = iter.next_chunk(1).map(|c| c.values.count());
         });
         std::thread::sleep(std::time::Duration::from_millis(200));
         let seen = overlap.load(Ordering::SeqCst);
